@@ -56,9 +56,53 @@ def qstress (args : List Sexp) : String :=
   | "pc" => "pc missing=0 dup=0 invented=0 orderbad=0 final=0"
   | _ => "bad-op"
 
+/-- sequential calls (harness `qpre`), the `…c` operations made with a context that is already
+    cancelled: they are the model's `start` segment when it returns, and the context error when it
+    would park (`resume` with `cancelled = true` right after parking: no effect) -/
+def preStep (s : St) (op : Sexp) : Option (St × String) :=
+  let run (o : Op) (dead : Bool) : Option (St × String) :=
+    let r := start s 0 o
+    match r.fin with
+    | .ret x => some (r.st, x)
+    | .park _ =>
+      if dead then
+        let r2 := resume r.st 0 o true
+        match r2.fin with
+        | .ret x => some (r2.st, x)
+        | .park _ => none
+      else none
+  match op with
+  | .list [.atom "add", v] => do run (.add (← v.int?)) false
+  | .list [.atom "remove"] => run .remove false
+  | .list [.atom "len"] => run .len false
+  | .list [.atom "close"] => run .close false
+  | .list [.atom "baddc", v] => do run (.badd (← v.int?)) true
+  | .list [.atom "waitc"] => run .wait true
+  | .list [.atom "recvc"] => run .recv true
+  | .list [.atom "badd", v] => do run (.badd (← v.int?)) false
+  | _ => none
+
+def qpre (args : List Sexp) : String :=
+  match args.find? (fun a => match a with | .list (.atom "cfg" :: _) => true | _ => false),
+        args.find? (fun a => match a with | .list (.atom "ops" :: _) => true | _ => false) with
+  | some c, some (.list (_ :: ops)) =>
+    match cfgOf c with
+    | none => "bad-op"
+    | some st0 =>
+      let rec go (s : St) (ops : List Sexp) (acc : List String) : String :=
+        match ops with
+        | [] => ";".intercalate acc.reverse ++ " | " ++ subject.final s
+        | o :: rest =>
+          match preStep s o with
+          | some (s', r) => go s' rest (r :: acc)
+          | none => "would-block"
+      go st0 ops []
+  | _, _ => "bad-op"
+
 def handle (s : Sexp) : String :=
   match s with
   | .list (.atom "qstress" :: args) => qstress args
+  | .list (.atom "qpre" :: args) => qpre args
   | .list (.atom "queue" :: args) =>
     match parse args with
     | some (st, progs, choices) => runCase subject st progs choices
